@@ -34,4 +34,24 @@ CLAIMED.update({
   "note": LEDGER_NOTE + " Zero hash is reserved for 'no parent' (no vertex carries it).", "design_ref": "6 C09",
  },
 })
+CLAIMED.update({
+ "C01": {
+  "engine": "ledgerh+CheckLedger",
+  "technique": "Coq: validateLeaf's two-part uint64 accounting proved equal to a Z inequality (validate_ok_covers via C05 exactness), lifted over all operation sequences/hints to 'a tip gets a child only if covered'; trace-acceptor correspondence; big.Int monitor on every snapshot pair",
+  "text": "C01_validation_sound + C01_gossip/retry/proposal_confirms_only_covered: in every reachable ledger, for every tip order, cancellation point and amount, a vertex acquires its first child (the only way to become confirmed; C01_truncation_confirms_nothing_new) only if checkpointed funds + inflow >= outflow over its own history in unbounded integers, unless it moves no spice, is a root, or its sealer is in the trusted store; failing tips are dropped with their index entry (C01_failing_tip_dropped, C03_dropped_can_be_reproposed); C01_chain gives solvency on chains. The monitor recomputes the inequality with math/big from declared parents on every newly confirmed vertex of the real ledger.",
+  "note": LEDGER_NOTE + " History = ancestors as computed by the model's one-pass walk over the topologically ordered vertex list (order invariant proved: reach_InvG).", "design_ref": "6 C01",
+ },
+ "C02": {
+  "engine": "ledgerh+CheckLedger",
+  "technique": "Coq: conservation theorem over any vertex collection obeying the sealing rules (induction, indicator sums); kernel-checked 4-operation counterexample to union solvency (merge) = known finding; big.Int monitor at quiescence on every node",
+  "text": "C02_supply_conserved: over any collection of vertices of a reachable ledger the balances of all non-genesis wallets add up exactly to what genesis issued (supply neither grows nor shrinks). The 'no wallet overdrawn over the union of confirmed vertices' half is refuted by the faithful model and by the code (C02_solvent_refuted_by_merge, KNOWN-FINDING merge-double-spend); what holds is per-history coverage (C01) and solvency on chains (C02_solvent_on_chain). The monitor evaluates solvency and conservation with math/big on the confirmed set of every node at quiescence and classifies an overdraft as the known merge case only if every confirmed vertex is covered in its own history.",
+  "note": LEDGER_NOTE, "design_ref": "6 C02",
+ },
+ "C06": {
+  "engine": "ledgerh+CheckLedger",
+  "technique": "Coq: CalculateBalance's accumulation proved equal to the Z reference sum (soundness for every cancellation point, completeness without cancellation), value-determined canonical form; trace-acceptor correspondence (balance in {f(tip)}); big.Int monitor + purity check on every query",
+  "text": "C06_balance_is_reference_sum, C06_negative_is_error, C06_nonnegative_is_reported, C06_same_vertices_same_balance: any number the query reports is canonical and equals checkpoint + received - sent over one tip and its ancestors; a negative sum is an error; a non-negative one is reported (flows representable); ledgers with the same history vertices and funds report the same value. The query has no ledger output in the model; the harness compares snapshots before/after every real query and the reported value with a math/big reference per tip.",
+  "note": LEDGER_NOTE + " 'tip' is the tip the Go map range ends on (hint; the acceptor accepts any tip).", "design_ref": "6 C06",
+ },
+})
 NOT_YET = {}
